@@ -23,9 +23,10 @@ PROPS = {
     },
     'C02': {
         'claimed': True,
-        'level_text': "Proved about the model of the decoder (_parse_bytes, to_arg, bytes_to_blocks) against the Spec layer's rendering of CPython's reader, for every byte string, every set of tables and every opcode classification - no bound: (instructions) _parse_bytes yields exactly CPython's instructions - opcode, signed 32-bit operand with EXTENDED_ARG prefixes folded, first and next offset - whenever no instruction has more than three prefixes (C02_instructions); (operands) the decoded list has one instruction per raw instruction with the same opcode, and each operand is related to the raw operand by CPython's own resolution rule for its class: co_names[arg], co_varnames[arg], cell iff arg < len(co_cellvars) else co_freevars[arg-len], co_consts[arg], absolute target arg x unit, relative target next offset + arg x unit with the right kind (C02_operands); (jumps) if every jump target is an instruction start, the block index stored in a jump is the index of the block whose first instruction is the instruction at the target offset (C02_jump_blocks, with C02_flatten = the C13 partition). Not yet a theorem: 'line_number is the line CPython's line table assigns' (stage 3 of the line codec; its stages 1-2 are proved under C10) and the glue of to_code_data around these pieces. Those, and that the model is the implementation, are decided on every run by the correspondence (model decode = implementation on every code object; Spec.read = dis.get_instructions + PyCode_Addr2Line / co_lines on every code object) and the direct oracle against dis on 3.7-3.10.",
-        'theorems': ['CDV.Props.C02.C02_instructions', 'CDV.Props.C02.C02_operands', 'CDV.Props.C02.C02_jump_blocks', 'CDV.Props.C02.C02_flatten'],
-        'modules': ['CDVProofs.Bytes', 'CDVProofs.DecodeOps', 'CDVProofs.BlockStarts', 'CDVProofs.ParseOffsets', 'CDVProofs.Props.C02'],
+        'level_text': "Proved about the model of the decoder (_parse_bytes, to_arg, bytes_to_blocks, to_line_mapping) against the Spec layer's rendering of CPython's readers, for every byte string, every set of tables, every line table and every opcode classification - no bound: (instructions) _parse_bytes yields exactly CPython's instructions - opcode, signed 32-bit operand with EXTENDED_ARG prefixes folded, first and next offset - whenever no instruction has more than three prefixes (C02_instructions); (operands) the decoded list has one instruction per raw instruction with the same opcode, and each operand is related to the raw operand by CPython's own resolution rule for its class: co_names[arg], co_varnames[arg], cell iff arg < len(co_cellvars) else co_freevars[arg-len], co_consts[arg], absolute target arg x unit, relative target next offset + arg x unit with the right kind (C02_operands); (jumps) if every jump target is an instruction start, the block index stored in a jump is the index of the block whose first instruction is the instruction at the target offset (C02_jump_blocks, with C02_flatten = the C13 partition); (lines) for every co_linetable (3.10) of in-range rows and every co_lnotab (3.7-3.9), with even address deltas, every decoded instruction's line_number is the line CPython's own reader (co_lines / PyCode_Addr2Line + co_firstlineno) assigns to the instruction's first offset, None exactly where CPython reports no line (C02_lines_310, C02_lines_lnotab - the latter includes termination of the decoding loop); and to_code_data calls exactly these pieces on the code object's own bytecode, tables and line table (toCodeDataGo_decompose). Not a theorem: the final assembly of these facts into one statement about Spec.read (the pieces share their hypotheses but are stated separately), and that the model is the implementation - the latter is decided on every run by the correspondence (model decode = implementation on every code object; Spec.read = dis.get_instructions + PyCode_Addr2Line / co_lines on every code object) and the direct oracle against dis on 3.7-3.10.",
+        'theorems': ['CDV.Props.C02.C02_instructions', 'CDV.Props.C02.C02_operands', 'CDV.Props.C02.C02_jump_blocks', 'CDV.Props.C02.C02_flatten',
+                     'CDV.Props.C02.C02_lines_310', 'CDV.Props.C02.C02_lines_lnotab', 'CDV.toCodeDataGo_decompose'],
+        'modules': ['CDVProofs.Bytes', 'CDVProofs.DecodeOps', 'CDVProofs.BlockStarts', 'CDVProofs.ParseOffsets', 'CDVProofs.LineSem', 'CDVProofs.LineSemOld', 'CDVProofs.DecodeLines', 'CDVProofs.DecodeTop', 'CDVProofs.Props.C02'],
         'eval_keys': ['code_objects'], 'rule': PROGRAM_RULE},
     'C13': {
         'claimed': True,
@@ -50,9 +51,9 @@ PROPS = {
         'level_text': "Proved for all headers (any counts/flags/variable tables with distinct parameter names): args_from_input succeeds and Args.parameters is exactly CPython's binding of co_varnames in inspect.signature order (C04_signature, against Spec.sigCore, which is itself compared with inspect.signature on the real interpreters every run). Docstring, function kind, len(args) and 'type is None for modules/classes' are decided by the correspondence and the direct oracle against inspect / function objects over all signature shapes x function kinds x docstring shapes.",'theorems': ['CDV.Props.C04.C04_signature'], 'modules': ['CDVProofs.Args', 'CDVProofs.Props.C04'], 'eval_keys': ['code_objects'], 'rule': 'signature shapes x function kinds x docstring shapes x optimize, plus all scopes of the program corpus'},
     'C10': {
         'claimed': True,
-        'level_text': "Proved for all inputs (no bound on table length or deltas): stage 1 bytes<->rows and stage 2 collapse/expand of the line-table codec are lossless on every list of in-range rows, both formats, with collapse never raising (C10_bytes, C10_expand_collapse, C10_bytes_rows_roundtrip). Not yet theorems: stage 3 (rows <-> per-offset lines) and 'decoded line = CPython's line'; those two are decided on every run by the correspondence (model = implementation end to end on every generated and real table) together with the direct oracle against PyCode_Addr2Line on 3.7-3.10.",
-        'theorems': ['CDV.Props.C10.C10_bytes', 'CDV.Props.C10.C10_expand_collapse', 'CDV.Props.C10.C10_bytes_rows_roundtrip'],
-        'modules': ['CDVProofs.LineTable', 'CDVProofs.Props.C10'],
+        'level_text': "Proved for all inputs (no bound on table length or deltas, no assumption that CPython's assembler wrote the table): (decoding agrees with CPython) for every co_linetable (3.10) of in-range rows with even address deltas - forward/backward line jumps of any size, ranges beyond one entry's 254 bytes, zero-width entries, runs without line - to_line_mapping succeeds, every entry of the decoded mapping carries the line CPython's reader assigns to that offset (None = no line) and every offset in the table's range has an entry (C10_decoded_lines_310); for every co_lnotab (3.7-3.9) with even address deltas to_line_mapping terminates (the while loop ends - with an odd address it would not, shown by example) and every even offset below the code length maps to exactly PyCode_Addr2Line's line (C10_decoded_lines_lnotab); (re-encoding, stages 1-2) bytes<->rows and collapse/expand are lossless on every list of in-range rows, both formats, with collapse never raising (C10_bytes, C10_expand_collapse, C10_bytes_rows_roundtrip). Not yet a theorem: stage 3 in the encoding direction (mapping_to_items inverts items_to_mapping on decoded mappings), which the byte-for-byte claim needs besides stages 1-2; it is decided on every run by the correspondence (model = implementation end to end on every generated and real table) together with the direct oracle (re-encoded table = original, lines = PyCode_Addr2Line) on 3.7-3.10.",
+        'theorems': ['CDV.Props.C10.C10_decoded_lines_310', 'CDV.Props.C10.C10_decoded_lines_lnotab', 'CDV.Props.C10.C10_bytes', 'CDV.Props.C10.C10_expand_collapse', 'CDV.Props.C10.C10_bytes_rows_roundtrip'],
+        'modules': ['CDVProofs.LineTable', 'CDVProofs.LineSem', 'CDVProofs.LineSemOld', 'CDVProofs.Props.C10'],
         'eval_keys': ['line_programs', 'real_tables'],
         'rule': ('abstract line programs (0-8 events, byte deltas and line deltas drawn from and around 127/128, 254/255 and multiples, '
                  'zero-byte events on <=3.9, no-line events on 3.10) assembled by an independent rendering of assemble_lnotab / assemble_line_range, '
